@@ -295,4 +295,53 @@ def run (initSize : Nat) (ops : List Op) : PyM (MmapedDict × List Effect) := do
 def readMetrics (pageSize : Nat) (files : List Bytes) : PyM (List (List Item)) :=
   files.mapM (readAllValuesFromFile pageSize)
 
+/-! ## the collector's listing → read step, with files that vanish in between -/
+
+/-- a listed worker file: `parts[0]`, `parts[1]` of its base name split at `_`, and what `open` finds when the collector
+gets to it — `none`: the file was removed between the directory listing and the read -/
+structure Listed where
+  typ : List Char
+  mode : List Char
+  content : Option Bytes
+
+/-- `typ == 'gauge' and parts[1].startswith('live')` (both literals extracted) -/
+def tolerated (typ mode : List Char) : Bool := typ == vanishTyp && vanishModePrefix.isPrefixOf mode
+
+/-- `_read_metrics` over the listing: a vanished file raises FileNotFoundError in `open`; the handler skips tolerated names
+and re-raises otherwise -/
+def readMetricsListed (pageSize : Nat) : List Listed → PyM (List (List Item))
+  | [] => .ok []
+  | f :: rest =>
+    match f.content with
+    | none =>
+      if vanishCaught == ['F', 'i', 'l', 'e', 'N', 'o', 't', 'F', 'o', 'u', 'n', 'd', 'E', 'r', 'r', 'o', 'r'] && tolerated f.typ f.mode
+      then readMetricsListed pageSize rest
+      else .error .fileNotFound
+    | some b => do
+      let items ← readAllValuesFromFile pageSize b
+      let r ← readMetricsListed pageSize rest
+      .ok (items :: r)
+
+/-- the readers' two `read()` calls against a live file: the first block (and with it the header) is taken from the file
+as it is at one moment, the rest from the file as it is at a later moment -/
+def readAllValuesFromFile2 (pageSize : Nat) (file1 file2 : Bytes) : PyM (List Item) :=
+  let data := file1.take pageSize
+  if shortFile data then .ok []
+  else do
+    let used ← unpackInt data headerPos
+    let data := if used > data.length then data ++ (file2.drop data.length).take (used.toNat - data.length) else data
+    readAllValuesRaw data used
+
+/-- one generation of a worker file: a writer opens whatever is there (creating the file if absent) and runs `ops` -/
+def genRun (initSize : Nat) (f : Option Bytes) (ops : List Op) : PyM (MmapedDict × List Effect) := do
+  let (d0, tr0) ← init initSize (f.getD [])
+  let (d, tr) ← runFrom initSize d0 ops
+  .ok (d, (if f.isNone then [Effect.createEmpty] else []) ++ tr0 ++ tr)
+
+/-- … and stops dead after its first `k` file effects -/
+def genCut (initSize : Nat) (f : Option Bytes) (ops : List Op) (k : Nat) : Option Bytes :=
+  match genRun initSize f ops with
+  | .ok (_, effs) => applyEffects f (effs.take k)
+  | .error _ => f
+
 end PromVerif.Model.MmapDict
